@@ -31,7 +31,7 @@ RULE = ("cases = pairs of systems (num_wann, lattice, R-list relation, matrix-se
 ASSUMPTIONS = [
     "pairs are in-memory zoo systems (num_wann 1-3, tric/hex lattices, R-sets shell1/shell2/lopsided) with generic matrices; "
     "same lattice, same num_wann, both spin-orbit systems carry a spin-orbit term (the constructor requires rvec)",
-    "k alphabet: Gamma, X, two generic points; observables compared only where bands are non-degenerate (gap > 1e-6)",
+    "k alphabet: Gamma, X, two generic points; observables compared only where bands are non-degenerate (gap > 1e-3: the tabulators average bands closer than degen_thresh=1e-4)",
     "the derivative matrices Xbar(name,1) and Berry curvature count as 'matrices at every k' (they depend on the centres)",
 ]
 
@@ -205,7 +205,7 @@ def compare_endpoint(tag, interp, endpoint, common, case):
                 if err > 1e-9 * scale:
                     return {"what": f"Xbar({name},der={der})", "k": kn, "err": err}
         E = np.sort(np.array(de.E_K).ravel())
-        if len(E) > 1 and np.min(np.diff(E)) < 1e-6:
+        if len(E) > 1 and np.min(np.diff(E)) < 1e-3:
             continue        # degenerate: band-resolved observables are gauge dependent
         ri = wb.evaluate_k(interp, k=k, quantities=obs, return_single_as_dict=True)
         re = wb.evaluate_k(endpoint, k=k, quantities=obs, return_single_as_dict=True)
